@@ -126,3 +126,41 @@ theorem formattersOf_ok (args : List Arg) (A : FormatSpec → String → Prop)
   exact h _ (List.getElem_mem hid) spec
 
 end StVerif.Lemmas.Fmt
+
+namespace StVerif.Lemmas.Fmt
+open StVerif StVerif.Fmt StVerif.Utf StVerif.Generated
+
+/-- Latin-1 → UTF-8 never fails and stores exactly what it measured (no assumption on the bytes) -/
+theorem fill_latin1 (m : Mode) (sb : Bool) (xs : List Nat) :
+    (fill (stepCh .latin1 .utf8 m sb) xs).status = .done ∧
+    (fill (stepCh .latin1 .utf8 m sb) xs).out.length = (xs.map (measureCh .latin1 .utf8)).sum := by
+  induction xs with
+  | nil => simp [fill]
+  | cons c r ih =>
+    by_cases h : c &&& 0x80 ≠ 0
+    · have hs : stepCh .latin1 .utf8 m sb c = .units [0xC0 ||| ((c >>> 6) &&& 0x1F), 0x80 ||| (c &&& 0x3F)] := by
+        simp [stepCh, h]
+      have hm : measureCh .latin1 .utf8 c = 2 := by simp [measureCh, h]
+      simp only [fill, hs, List.map_cons, List.sum_cons, hm, List.length_append, List.length_cons, List.length_nil]
+      exact ⟨ih.1, by rw [ih.2]⟩
+    · have hs : stepCh .latin1 .utf8 m sb c = .units [c] := by simp [stepCh, h]
+      have hm : measureCh .latin1 .utf8 c = 1 := by simp [measureCh, h]
+      simp only [fill, hs, List.map_cons, List.sum_cons, hm, List.length_append, List.length_cons, List.length_nil]
+      exact ⟨ih.1, by rw [ih.2]⟩
+
+/-- `string_stream::to_string(false, …)` (the Latin-1 entry point): the text, or the documented
+    size limit -/
+theorem toString_latin1_sat (bytes : List Nat) :
+    Sat (fun _ => True) (fun _ => False) (fun w => w = "String data buffer is too large" ∧ bytes.length ≥ hugeBufferSize)
+      (toStringOf .latin1 bytes) := by
+  simp only [toStringOf, convert]
+  split
+  · rename_i h; exact ⟨rfl, h⟩
+  · split
+    · trivial
+    · have hf := fill_latin1 .assumeValid true bytes
+      simp only [decode, Utf.measure] at hf ⊢
+      simp only [hf.1, hf.2, Nat.lt_irrefl, gt_iff_lt, if_false, if_true]
+      trivial
+
+end StVerif.Lemmas.Fmt
